@@ -269,7 +269,70 @@ func FuncValueSites(f *ssa.Function) []*ssa.MakeClosure {
 // StaticCallSites returns every call site of an unexported repository function that is
 // only ever called statically (never used as a value, not reachable through an
 // interface); nil when the set of callers is not known completely.
-func StaticCallSites(fn *ssa.Function) []ssa.CallInstruction { return allSites[fn] }
+func StaticCallSites(fn *ssa.Function) []ssa.CallInstruction {
+	if fn != nil && fn.Parent() != nil {
+		return literalCallSites(fn)
+	}
+	return allSites[fn]
+}
+
+var literalSites = map[*ssa.Function][]ssa.CallInstruction{}
+var literalSitesDone = map[*ssa.Function]bool{}
+
+// literalCallSites: the calls of a function literal that is created once and only ever
+// called directly (from its enclosing function or from sibling literals that capture the
+// variable holding it); nil when it is also passed on, stored in a field or started as a
+// goroutine.
+func literalCallSites(fn *ssa.Function) []ssa.CallInstruction {
+	if literalSitesDone[fn] {
+		return literalSites[fn]
+	}
+	literalSitesDone[fn] = true
+	sites := ClosureSites(fn)
+	if len(sites) != 1 {
+		return nil
+	}
+	mc := sites[0]
+	root := Outermost(fn)
+	var out []ssa.CallInstruction
+	ok := true
+	var scan func(f *ssa.Function)
+	scan = func(f *ssa.Function) {
+		Instrs(f, func(in ssa.Instruction) {
+			if in == ssa.Instruction(mc) {
+				return
+			}
+			if ci, isCall := in.(ssa.CallInstruction); isCall {
+				if Canon(ci.Common().Value) == ssa.Value(mc) {
+					if _, isGo := in.(*ssa.Go); isGo {
+						ok = false
+					}
+					out = append(out, ci)
+				}
+				for _, a := range ci.Common().Args {
+					if Canon(a) == ssa.Value(mc) {
+						ok = false
+					}
+				}
+				return
+			}
+			if st, isSt := in.(*ssa.Store); isSt && Canon(st.Val) == ssa.Value(mc) {
+				if _, local := cellOf(st.Addr).(*ssa.Alloc); !local {
+					ok = false
+				}
+			}
+		})
+		for _, af := range f.AnonFuncs {
+			scan(af)
+		}
+	}
+	scan(root)
+	if !ok {
+		return nil
+	}
+	literalSites[fn] = out
+	return out
+}
 
 // SingleCallSite returns the only static call site of an unexported repository function
 // that is never used as a value (nil otherwise).
